@@ -582,6 +582,8 @@ def tag_all(t):
     except Exception:
         untag(out)
         raise
+    finally:
+        rec = None      # break the closure cycle: it would pin `out` (every node) until the next gc
     return out
 
 
